@@ -19,7 +19,14 @@
 (***************************************************************************)
 EXTENDS WireOps
 
-CONSTANT Variant     \* "code" = as the pinned tree does it; others = regressions
+(* V (last parameter of ImplReq etc.) selects the variant of the design:     *)
+(*   "code"           as the pinned tree does it                             *)
+(*   "fixed"          repaired: ExportIndication drops the instance path     *)
+(*                    (as CreateInstance does); SCOPE never gets an ANY      *)
+(*                    attribute; real-typed keys are numbers in CIMObject    *)
+(*   "keephost", "hdr_before_default", "minst_order": realistic regressions  *)
+(*                    (on top of "fixed")                                    *)
+Variants == {"code", "fixed", "keephost", "hdr_before_default", "minst_order"}
 
 Arg(f, kb, pr, x) == [f |-> f, kb |-> kb, pr |-> pr, x |-> x]
 A0(f) == Arg(f, <<>>, <<>>, <<>>)
@@ -189,11 +196,15 @@ PropShapes == {"s", "snull", "sempty", "u8", "s64", "b", "dt", "r64", "c16",
 PropTrees(pr) == [i \in DOMAIN pr |-> PropTree(PropNames[i], pr[i])]
 
 (* ---- instances -------------------------------------------------------------- *)
-(* x flags: "q" one instance-level qualifier *)
+(* x flags that are qualifier shapes: object-level qualifiers q1, q2, ...     *)
+QNames == <<"q1", "q2", "q3">>
+ObjQuals(x) ==
+  LET qs == SelectSeq(x, LAMBDA f : f \in QualShapes) IN
+  [i \in DOMAIN qs |-> QualTree(QNames[i], qs[i])]
+
 InstanceTree(a) ==
   El("INSTANCE", <<<<"CLASSNAME", "icls">>>>,
-     (IF Has(a.x, "q") THEN <<QualTree("q1", "q")>> ELSE <<>>)
-       \o PropTrees(a.pr), "none")
+     ObjQuals(a.x) \o PropTrees(a.pr), "none")
 
 (* CIMInstance.tocimxml() honouring its path (form in a.f, keys in a.kb) *)
 InstanceWithPath(a) ==
@@ -246,12 +257,12 @@ MethodTree(name, m) ==
 MethNames == <<"m1", "m2">>
 
 (* class argument: pr = property shapes, kb = <<method1 flagword, params..>>,*)
-(* x flags: "super" superclass, "q" class qualifier, "m2" a second, plain   *)
-(* method                                                                    *)
+(* x flags: "super" superclass, qualifier shapes = class qualifiers, "m2" a   *)
+(* second, plain method                                                      *)
 ClassTree(a) ==
   El("CLASS",
      <<<<"NAME", "ccls">>>> \o OptAttr(Has(a.x, "super"), "SUPERCLASS", "scls"),
-     (IF Has(a.x, "q") THEN <<QualTree("q1", "qb")>> ELSE <<>>)
+     ObjQuals(a.x)
        \o PropTrees(a.pr)
        \o (IF Len(a.kb) > 0 THEN <<MethodTree("m1", a.kb)>> ELSE <<>>)
        \o (IF Has(a.x, "m2") THEN <<MethodTree("m2", <<"m">>)>> ELSE <<>>),
@@ -259,8 +270,11 @@ ClassTree(a) ==
 
 (* ---- qualifier declarations ---------------------------------------------------- *)
 (* x flags: type "t_string"|"t_boolean"|"t_uint32"; "arr"; "size"; value    *)
-(* "vs"|"va"; scopes "sc1"|"sc2"|"scany"; flavors "fl_t"|"fl_f"|"fl_ov"      *)
-QualDeclTree(a) ==
+(* "vs"|"va"; scopes "sc1"|"sc2"|"scany"|"scmof"; flavors "fl_t"|"fl_f"|     *)
+(* "fl_ov".  "scmof": the scopes dictionary as the MOF compiler builds it    *)
+(* (all seven scopes plus ANY: False); the pinned tree writes the ANY entry  *)
+(* as an attribute of SCOPE.                                                 *)
+QualDeclTree(a, Variant) ==
   LET ty == IF Has(a.x, "t_boolean") THEN "boolean"
             ELSE IF Has(a.x, "t_uint32") THEN "uint32" ELSE "string"
       tf(b) == IF b THEN "true" ELSE "false"
@@ -281,6 +295,13 @@ QualDeclTree(a) ==
                                  <<"INDICATION", "true">>, <<"METHOD", "true">>,
                                  <<"PARAMETER", "true">>, <<"PROPERTY", "true">>,
                                  <<"REFERENCE", "true">>>>, <<>>, "none")>>
+            ELSE IF Has(a.x, "scmof")
+            THEN <<El("SCOPE",
+                      (IF Variant = "code" THEN <<<<"ANY", "false">>>> ELSE <<>>)
+                        \o <<<<"ASSOCIATION", "false">>, <<"CLASS", "true">>,
+                              <<"INDICATION", "false">>, <<"METHOD", "false">>,
+                              <<"PARAMETER", "false">>, <<"PROPERTY", "true">>,
+                              <<"REFERENCE", "false">>>>, <<>>, "none")>>
             ELSE <<>>
       v == IF Has(a.x, "vs") THEN <<Val>>
            ELSE IF Has(a.x, "va") THEN <<ValArray(<<Val>>)>> ELSE <<>>
@@ -330,7 +351,7 @@ OpTable ==
   @@ ("EnumerateInstanceNames" :> Op("i", "arg_cn", TRUE, <<CnR>>))
   @@ ("GetInstance" :> Op("i", "obj", FALSE, <<InR, LO, IQ, ICO, PL>>))
   @@ ("ModifyInstance" :> Op("i", "minst", FALSE,
-        <<P("ModifiedInstance", "modifiedinstance", "minst", TRUE, "">>, IQ, PL>>))
+        <<P("ModifiedInstance", "modifiedinstance", "minst", TRUE, ""), IQ, PL>>))
   @@ ("CreateInstance" :> Op("i", "arg_inst", TRUE,
         <<P("NewInstance", "newinstance", "inst", TRUE, "")>>))
   @@ ("DeleteInstance" :> Op("i", "obj", FALSE, <<InR>>))
@@ -479,7 +500,7 @@ PlistTree(f) ==
     [] f = "two" -> ValArray(<<Val, Val>>)
     [] f = "nullelem" -> ValArray(<<Val, ValNull>>)
 
-IParamChild(p, a) ==
+IParamChild(p, a, Variant) ==
   CASE p.k \in {"bool", "uint", "ctx"} -> Val
     [] p.k = "str" -> IF a.f = "e" THEN ValEmpty ELSE Val
     [] p.k = "plist" -> PlistTree(a.f)
@@ -492,10 +513,10 @@ IParamChild(p, a) ==
          El("VALUE.NAMEDINSTANCE", <<>>,
             <<InstNameTree("icls", a.kb), InstanceTree(a)>>, "none")
     [] p.k = "cls" -> ClassTree(a)
-    [] p.k = "qd" -> QualDeclTree(a)
+    [] p.k = "qd" -> QualDeclTree(a, Variant)
 
-IParam(p, a) ==
-  El("IPARAMVALUE", <<<<"NAME", p.l>>>>, <<IParamChild(p, a)>>, "none")
+IParam(p, a, Variant) ==
+  El("IPARAMVALUE", <<<<"NAME", p.l>>>>, <<IParamChild(p, a, Variant)>>, "none")
 
 Envelope(req) ==
   El("CIM", <<<<"CIMVERSION", "2.0">>, <<"DTDVERSION", "2.0">>>>,
@@ -504,7 +525,7 @@ Envelope(req) ==
 
 (* _imethodcall: IPARAMVALUE for every argument that is not None, in the    *)
 (* keyword order of the call                                                 *)
-IMethodReq(wireop, ns, params, args) ==
+IMethodReq(wireop, ns, params, args, Variant) ==
   LET present == SelectSeq([i \in DOMAIN params |-> i],
                            LAMBDA i : args[i].f # "none") IN
   [emit |-> TRUE,
@@ -512,14 +533,14 @@ IMethodReq(wireop, ns, params, args) ==
      <<El("IMETHODCALL", <<<<"NAME", LowerOp[wireop]>>>>,
           <<NsPath(ns)>> \o
             [j \in DOMAIN present |-> IParam(params[present[j]],
-                                            args[present[j]])],
+                                            args[present[j]], Variant)],
           "none")>>, "none")),
    hdr |-> [method |-> LowerOp[wireop], form |-> "ns", ns |-> ns,
-            cls |-> "", keys |-> {}]]
+            cls |-> "", keys |-> <<>>]]
 
 Refused == [emit |-> FALSE, tree |-> El("#none", <<>>, <<>>, "none"),
             hdr |-> [method |-> "", form |-> "none", ns |-> <<>>, cls |-> "",
-                     keys |-> {}]]
+                     keys |-> <<>>]]
 
 (* ---- InvokeMethod ---------------------------------------------------------------------- *)
 (* a.pr = <<via1, shape1, via2, shape2, ...>>; via: "tuple" | "kw" | "cp"   *)
@@ -565,7 +586,7 @@ MParamShapes == {"s", "sempty", "u8", "s64", "b", "dt", "r64", "c16", "refi",
                  "refl", "refc", "ei", "eo", "null", "as", "au8", "aempty",
                  "aref", "aei"}
 
-MethodReq(c) ==
+MethodReq(c, Variant) ==
   LET tgt == c.args[1]
       pa == c.args[2]
       ns == TargetNs(c)
@@ -581,6 +602,10 @@ MethodReq(c) ==
               ELSE NsPath(ns)
       hdrns == IF Variant = "hdr_before_default" /\ ~HasNs(tgt.f)
                THEN <<>> ELSE ns
+      (* pinned tree: to_wbem_uri() renders a Real32/Real64 key with repr(), *)
+      (* i.e. "Real32(cimtype='real32', 1.5)": not a key value any more      *)
+      badreal == /\ Variant = "code" /\ IsInstForm(tgt.f)
+                 /\ \E i \in DOMAIN tgt.kb : tgt.kb[i] = "r32"
   IN
   [emit |-> TRUE,
    tree |-> Envelope(El("SIMPLEREQ", <<>>,
@@ -589,43 +614,35 @@ MethodReq(c) ==
             [j \in 1..n |-> MParamTree(MParNames[j], pa.pr[2 * j - 1],
                                        pa.pr[2 * j])],
           "none")>>, "none")),
-   hdr |-> [method |-> "meth1", form |-> "path", ns |-> hdrns, cls |-> "tcls",
+   hdr |-> [method |-> "meth1",
+            form |-> IF badreal THEN "unparsable" ELSE "path",
+            ns |-> hdrns, cls |-> "tcls",
             keys |-> IF IsInstForm(tgt.f)
-                     THEN {KeyNames[i] : i \in DOMAIN tgt.kb} ELSE {}]]
+                     THEN [i \in DOMAIN tgt.kb |-> KeyNames[i]] ELSE <<>>]]
 
 (* ---- ExportIndication ------------------------------------------------------------------- *)
 (* Variant "code": tocimxml(NewIndication) honours the instance's path      *)
-(* (what the pinned tree does); "export_nopath": the path is dropped as in  *)
+(* (what the pinned tree does); otherwise the path is dropped as in         *)
 (* CreateInstance.                                                           *)
-ExportReq(c) ==
+ExportReq(c, Variant) ==
   LET a == c.args[1]
-      child == IF Variant = "export_nopath" THEN InstanceTree(a)
-               ELSE InstanceWithPath(a) IN
+      child == IF Variant = "code" THEN InstanceWithPath(a)
+               ELSE InstanceTree(a) IN
   [emit |-> TRUE,
    tree |-> Envelope(El("SIMPLEEXPREQ", <<>>,
      <<El("EXPMETHODCALL", <<<<"NAME", "exportindication">>>>,
           <<El("EXPPARAMVALUE", <<<<"NAME", "newindication">>>>, <<child>>,
                "none")>>, "none")>>, "none")),
    hdr |-> [method |-> "exportindication", form |-> "none", ns |-> <<>>,
-            cls |-> "", keys |-> {}]]
+            cls |-> "", keys |-> <<>>]]
 
 (* ---- all operations ---------------------------------------------------------------------- *)
-ImplReq(c) ==
+ImplReq(c, Variant) ==
   LET o == OpTable[c.op] IN
   CASE o.kind = "i" ->
-         IF Variant = "plist_str_unwrapped" /\ ArgOf(c, "PropertyList").f = "str"
-         THEN \* regression: a string PropertyList passed on as VALUE
-              LET r == IMethodReq(c.op, TargetNs(c), o.params, c.args)
-                  call == r.tree.c[1].c[1].c[1]
-                  fix(k) == IF AttrVal(k, "NAME") = "propertylist"
-                            THEN El("IPARAMVALUE", k.a, <<Val>>, "none") ELSE k
-              IN [r EXCEPT !.tree = Envelope(El("SIMPLEREQ", <<>>,
-                    <<El("IMETHODCALL", call.a,
-                         [i \in DOMAIN call.c |-> fix(call.c[i])], "none")>>,
-                    "none"))]
-         ELSE IF Variant = "minst_order" /\ c.op = "ModifyInstance"
+         IF Variant = "minst_order" /\ c.op = "ModifyInstance"
          THEN \* regression: INSTANCE before INSTANCENAME
-              LET r == IMethodReq(c.op, TargetNs(c), o.params, c.args)
+              LET r == IMethodReq(c.op, TargetNs(c), o.params, c.args, Variant)
                   call == r.tree.c[1].c[1].c[1]
                   swap(k) == IF AttrVal(k, "NAME") = "modifiedinstance"
                              THEN El("IPARAMVALUE", k.a,
@@ -637,9 +654,9 @@ ImplReq(c) ==
                     <<El("IMETHODCALL", call.a,
                          [i \in DOMAIN call.c |-> swap(call.c[i])], "none")>>,
                     "none"))]
-         ELSE IMethodReq(c.op, TargetNs(c), o.params, c.args)
-    [] o.kind = "m" -> MethodReq(c)
-    [] o.kind = "x" -> ExportReq(c)
+         ELSE IMethodReq(c.op, TargetNs(c), o.params, c.args, Variant)
+    [] o.kind = "m" -> MethodReq(c, Variant)
+    [] o.kind = "x" -> ExportReq(c, Variant)
     [] o.kind = "iter" ->
          LET pull == c.pull \in {"t", "n"}
              tgt == IterTarget[c.op][IF pull THEN 1 ELSE 2]
@@ -659,7 +676,126 @@ ImplReq(c) ==
                   \/ /\ c.op = "IterQueryInstances"
                      /\ ArgOf(c, "ReturnQueryResultClass").f # "none"
          IN IF refused THEN Refused
-            ELSE IMethodReq(tgt, TargetNs(c), tp, targs)
+            ELSE IMethodReq(tgt, TargetNs(c), tp, targs, Variant)
+
+(* ---- the case space (WireOps_Gen) --------------------------------------------------------- *)
+(* Every dimension (parameter, `namespace`, default namespace, pull mode)    *)
+(* has a base value and a set of alternatives; Cases(K) = all cases in which *)
+(* at most K dimensions leave their base value (K = 2: every pair of         *)
+(* parameter values meets in some request).                                  *)
+KbShapes == {<<>>, <<"s">>, <<"c16">>, <<"dt">>, <<"b">>, <<"u8">>, <<"s64">>,
+             <<"r32">>, <<"n">>, <<"ref">>, <<"refl">>, <<"refh">>,
+             <<"s", "u8">>, <<"n", "ref", "b">>}
+BaseKb == <<"s">>
+
+InstContents ==
+  {<<sh>> : sh \in PropShapes} \cup {<<>>, <<"s", "as", "ref">>, <<"ei", "anull">>}
+
+ClassMethods ==
+  {<<"m">>, <<"m+">>, <<"mq">>, <<"m", "p", "pr", "pa", "pra">>}
+    \cup {<<"m", ps>> : ps \in ParamShapes}
+
+QdFlagSets ==
+  {<<"t_boolean">>, <<"t_uint32">>, <<"t_string", "arr">>,
+   <<"t_string", "arr", "size">>, <<"t_string", "vs">>, <<"t_string", "va">>,
+   <<"t_boolean", "vs", "sc1">>, <<"t_string", "sc2">>, <<"t_string", "scany">>,
+   <<"t_string", "scmof">>,
+   <<"t_string", "fl_t">>, <<"t_string", "fl_f">>, <<"t_string", "fl_ov">>,
+   <<"t_uint32", "va", "size", "scany", "fl_t">>}
+
+BaseOf(p) ==
+  CASE p.k \in {"bool", "plist"} -> NoneArg
+    [] p.k \in {"str", "uint"} -> IF p.r THEN A0("v") ELSE NoneArg
+    [] p.k = "cn" -> IF p.r THEN A0("str") ELSE NoneArg
+    [] p.k = "in" -> Arg("in", BaseKb, <<>>, <<>>)
+    [] p.k = "on" -> A0("str")
+    [] p.k \in {"inst", "xinst"} -> Arg("nopath", <<>>, <<"s">>, <<>>)
+    [] p.k = "minst" -> Arg("in", BaseKb, <<"s">>, <<>>)
+    [] p.k = "cls" -> Arg("cls", <<>>, <<>>, <<>>)
+    [] p.k = "qd" -> Arg("qd", <<>>, <<>>, <<"t_string">>)
+    [] p.k = "ctx" -> A0("ctx")
+    [] p.k = "mparams" -> Arg("mp", <<>>, <<>>, <<>>)
+
+InstNameOpts ==
+  {Arg(f, BaseKb, <<>>, <<>>) : f \in {"in_ns", "in_ns_h"}}
+    \cup {Arg("in", kb, <<>>, <<>>) : kb \in KbShapes \ {BaseKb}}
+    \cup {Arg("in_ns", <<"n", "ref", "b">>, <<>>, <<>>)}
+
+OptsOf(p) ==
+  CASE p.k = "bool" -> {A0("t"), A0("f")}
+    [] p.k = "str" -> IF p.r THEN {A0("e")} ELSE {A0("v"), A0("e")}
+    [] p.k = "uint" -> IF p.r THEN {} ELSE {A0("v")}
+    [] p.k = "plist" -> {A0("empty"), A0("one"), A0("two"), A0("str"),
+                         A0("nullelem")}
+    [] p.k = "cn" -> {A0(f) : f \in {"str", "cn", "cn_ns", "cn_ns_h"}}
+                       \ {BaseOf(p)}
+    [] p.k = "in" -> InstNameOpts
+    [] p.k = "on" -> {A0(f) : f \in {"cn", "cn_ns", "cn_ns_h"}}
+                       \cup InstNameOpts \cup {Arg("in", BaseKb, <<>>, <<>>)}
+    [] p.k \in {"inst", "xinst"} ->
+         ({Arg("nopath", <<>>, pr, <<>>) : pr \in InstContents}
+            \cup {Arg("nopath", <<>>, <<"s">>, <<q>>) : q \in {"q", "qfl"}}
+            \cup {Arg(f, BaseKb, <<"s">>, <<>>) : f \in {"in", "in_ns", "in_ns_h"}}
+            \cup {Arg("in_ns", <<"n", "ref", "b">>, <<"s", "as", "ref">>, <<"q">>)})
+           \ {BaseOf(p)}
+    [] p.k = "minst" ->
+         ({Arg("in", BaseKb, pr, <<>>) : pr \in InstContents}
+            \cup {Arg(f, BaseKb, <<"s">>, <<>>) : f \in {"in_ns", "in_ns_h"}}
+            \cup {Arg("in", kb, <<"s">>, <<>>) : kb \in KbShapes}
+            \cup {Arg("in_ns_h", <<"n", "ref", "b">>, <<"s", "as", "ref">>, <<"q">>)})
+           \ {BaseOf(p)}
+    [] p.k = "cls" ->
+         {Arg("cls", <<>>, pr, <<>>) : pr \in InstContents \ {<<>>}}
+           \cup {Arg("cls", m, <<>>, <<>>) : m \in ClassMethods}
+           \cup {Arg("cls", <<>>, <<>>, <<"super">>)}
+           \cup {Arg("cls", <<>>, <<>>, <<q>>) : q \in QualShapes}
+           \cup {Arg("cls", <<"m", "p">>, <<"snull", "anone", "refnull">>,
+                     <<"super", "qb", "qa", "m2">>)}
+    [] p.k = "qd" -> {Arg("qd", <<>>, <<>>, x) : x \in QdFlagSets}
+    [] p.k = "ctx" -> {}
+    [] p.k = "mparams" ->
+         {Arg("mp", <<>>, <<via, sh>>, <<>>) :
+            via \in {"tuple", "kw", "cp"}, sh \in MParamShapes}
+           \cup {Arg("mp", <<>>, <<"tuple", "s", "kw", "u8">>, <<>>),
+                 Arg("mp", <<>>, <<"cp", "refi", "tuple", "aref", "kw", "ei">>,
+                     <<>>)}
+
+(* dimensions of an operation: 1..np parameters, np+1 namespace argument,   *)
+(* np+2 default namespace, np+3 pull mode                                    *)
+NP(op) == Len(OpTable[op].params)
+DimOpts(op, d) ==
+  LET np == NP(op) IN
+  IF d <= np THEN OptsOf(OpTable[op].params[d])
+  ELSE IF d = np + 1
+  THEN (IF OpTable[op].hasns THEN {A0("a1"), A0("a2"), A0("a2s")} ELSE {})
+  ELSE IF d = np + 2
+  THEN (IF OpTable[op].nsrule \in {"ctx", "none"} THEN {} ELSE {A0("d1")})
+  ELSE (IF OpTable[op].kind = "iter" THEN {A0("f"), A0("n")} ELSE {})
+
+BaseCase(op) ==
+  [op |-> op,
+   pull |-> IF OpTable[op].kind = "iter" THEN "t" ELSE "na",
+   dflt |-> "d2",
+   ns |-> IF OpTable[op].hasns THEN NoneArg ELSE A0("na"),
+   args |-> [i \in 1..NP(op) |-> BaseOf(OpTable[op].params[i])]]
+
+WithDim(c, d, o) ==
+  LET np == NP(c.op) IN
+  IF d <= np THEN [c EXCEPT !.args[d] = o]
+  ELSE IF d = np + 1 THEN [c EXCEPT !.ns = o]
+  ELSE IF d = np + 2 THEN [c EXCEPT !.dflt = o.f]
+  ELSE [c EXCEPT !.pull = o.f]
+
+CasesOfOp(op, K) ==
+  LET dims == 1..(NP(op) + 3)
+      b == BaseCase(op)
+      one == UNION {{WithDim(b, d, o) : o \in DimOpts(op, d)} : d \in dims}
+      two == UNION {UNION {{WithDim(WithDim(b, d1, o1), d2, o2) :
+                              o1 \in DimOpts(op, d1), o2 \in DimOpts(op, d2)} :
+                             d2 \in {x \in dims : x > d1}} : d1 \in dims}
+  IN {b} \cup (IF K >= 1 THEN one ELSE {}) \cup (IF K >= 2 THEN two ELSE {})
+
+Cases(K) == UNION {CasesOfOp(op, K) : op \in Ops}
 
 (* ---- comparison of a tree from the real code with the transcription ------------------------ *)
 RECURSIVE SameTree(_, _)
